@@ -777,3 +777,15 @@ package corerad
 //@   ensures E1 [C20]: len(result) == ghost.n + b2i(cfg.Debug.Address != "") + b2i(s.w != nil)
 //@   ensures E2 [C20]: forall(i, 0, len(cfg.Interfaces), setHas(ghost.has, i) == (cfg.Interfaces[i].Advertise || cfg.Interfaces[i].Monitor))
 //@   ensures E3 [C20]: forall(k, 0, len(result), result[k] != nil)
+
+// The link watcher task: an unavailable watcher (os.ErrNotExist anywhere in the
+// error chain) is not an error of the task; any other watch error is fatal.
+//@ ghost var watchErr Iface
+//@ funcfield corerad.watcherTask.watch(wctx) (werr)
+//@   assigns everything
+//@   ensures W1: ghost.watchErr == werr
+//@ func (*watcherTask).Run
+//@   requires P1: t != nil && t.watch != nil && t.ll != nil
+//@   assigns everything
+//@   ensures E1 [C20]: ghost.watchErr == nil || errIs(ghost.watchErr, global("os.ErrNotExist")) ==> result == nil
+//@   ensures E2 [C20]: ghost.watchErr != nil && !errIs(ghost.watchErr, global("os.ErrNotExist")) ==> result != nil
